@@ -3,6 +3,7 @@ package mux
 import (
 	"bytes"
 	"fmt"
+	"math"
 	"runtime"
 	"strconv"
 	"strings"
@@ -196,7 +197,8 @@ type pendingReq struct {
 	issued      int
 	hintURI     string
 	blockedOnce bool
-	noMSN       bool // plain request (no _HLS_msn): answered at once with the current playlist
+	pText       string // _HLS_part as sent when it does not fit p
+	noMSN       bool   // plain request (no _HLS_msn): answered at once with the current playlist
 }
 
 // E2Result is the outcome of one C06 scenario.
@@ -561,6 +563,15 @@ func RunC06(sc Script, reqs []ReqSpec, bursts map[int]int, tmpBase string, exclu
 						pr.hasP, pr.p = true, n+1+int64(rs.PK%3)
 					case "past":
 						pr.hasP, pr.p = true, 9999
+						// far past the end, up to the largest values the directive can carry
+						switch rs.PK % 4 {
+						case 1:
+							pr.p = 1 << 62
+						case 2:
+							pr.p, pr.pText = math.MaxInt64, "9223372036854775808"
+						case 3:
+							pr.p, pr.pText = math.MaxInt64, "18446744073709551615"
+						}
 					}
 					class := "M=" + rs.M + ",P=" + rs.P
 					if int64(pr.m) < 7 && pr.m > st.first {
@@ -583,7 +594,9 @@ func RunC06(sc Script, reqs []ReqSpec, bursts map[int]int, tmpBase string, exclu
 					} else {
 						qs = append(qs, "_HLS_msn="+strconv.FormatInt(pr.m, 10))
 					}
-					if pr.hasP {
+					if pr.hasP && pr.pText != "" {
+						qs = append(qs, "_HLS_part="+pr.pText)
+					} else if pr.hasP {
 						qs = append(qs, "_HLS_part="+strconv.FormatInt(pr.p, 10))
 					}
 					if rs.Skip != "" {
